@@ -5,6 +5,8 @@
 //   - all M statements of this round are in the private sink, in order (nothing logged before the removal is lost),
 //   - the private sink has been destroyed (no other owner), the shared sink has not,
 //   - get_logger(name) is null and create_or_get_logger(name) builds a new logger over the next round's sink.
+// Then all threads create one shared fresh name at the same moment (spin barrier): everybody must get the same logger;
+// one of them removes it again.
 // At the end the shared sink holds T*R*M statements. Prints "OK ..." or the first failure. Built plain, with
 // ThreadSanitizer and with AddressSanitizer by props/c17.py (thorough tier).
 // usage: lg_mt <threads> <rounds> <statements per round>
@@ -64,6 +66,26 @@ private:
   bool _ordered{true};
 };
 
+// spin barrier that gives up when a failure was recorded (the other threads leave their loops then)
+static std::atomic<int> g_bar_count{0};
+static std::atomic<int> g_bar_gen{0};
+static bool barrier(int T)
+{
+  int const g = g_bar_gen.load();
+  if (g_bar_count.fetch_add(1) + 1 == T)
+  {
+    g_bar_count.store(0);
+    g_bar_gen.fetch_add(1);
+    return !g_fail.load();
+  }
+  while (g_bar_gen.load() == g)
+  {
+    if (g_fail.load()) return false;
+    std::this_thread::yield();
+  }
+  return !g_fail.load();
+}
+
 int main(int argc, char** argv)
 {
   int T = argc > 1 ? std::atoi(argv[1]) : 4;
@@ -79,6 +101,7 @@ int main(int argc, char** argv)
   std::vector<std::vector<Slot>> slots(static_cast<size_t>(T));
   for (auto& v : slots) v = std::vector<Slot>(static_cast<size_t>(R));
 
+  static std::vector<std::atomic<quill::Logger*>> got(static_cast<size_t>(T));
   std::vector<std::thread> ths;
   for (int t = 0; t < T; ++t)
   {
@@ -108,6 +131,20 @@ int main(int argc, char** argv)
         if (!sl->destroyed.load()) { fail("remove_logger_blocking returned but the unshared sink is not destroyed"); break; }
         if (shared_slot.destroyed.load()) { fail("shared sink destroyed while referenced"); break; }
         if (quill::Frontend::get_logger(name) != nullptr) { fail("get_logger finds the removed logger"); break; }
+        // all threads create one and the same fresh name at once: one logger, the same pointer for everybody
+        std::string const gname = "G" + std::to_string(r);
+        if (!barrier(T)) break;
+        quill::Logger* g = quill::Frontend::create_or_get_logger(gname, {shared}, quill::PatternFormatterOptions{"%(message)"});
+        got[static_cast<size_t>(t)].store(g);
+        if (!barrier(T)) break;
+        for (int u = 0; u < T; ++u)
+          if (got[static_cast<size_t>(u)].load() != g) fail("threads creating logger '" + gname + "' at the same time got different loggers: two loggers registered under one name");
+        if (!barrier(T)) break;
+        if (t == 0)
+        {
+          quill::Frontend::remove_logger_blocking(g, 0);
+          if (quill::Frontend::get_logger(gname) != nullptr) fail("get_logger('" + gname + "') still finds a logger after remove_logger_blocking returned");
+        }
       }
     });
   }
